@@ -325,6 +325,46 @@ func (r *runner) do(op Op) {
 		}
 		r.live[op.U] = &handle{cl: cl, conn: id}
 		r.emit(Event{"ev": "Acquire", "u": op.U, "res": "ok", "conn": id})
+	case "PoolDo":
+		// Pool.Do / Pool.Ping: acquire, one request, release - in one call of the library. The trace shows it as the three
+		// steps it consists of; only the last line carries an observation of the pool (the first two are "composite").
+		if r.live[op.U] != nil {
+			return
+		}
+		wait := 2 * time.Second
+		if st := r.p.Stat(); int(st.AcquiredResources()+st.ConstructingResources()) >= r.h.Max {
+			wait = 25 * time.Millisecond
+		}
+		before := r.requestCounts()
+		octx, cancel := context.WithTimeout(ctx, wait)
+		var err error
+		if op.How == "ping" {
+			err = r.p.Ping(octx)
+		} else {
+			err = r.p.Do(octx, ch.Query{Body: op.How})
+		}
+		cancel()
+		conn := 0
+		for id, n := range r.requestCounts() {
+			if (id < len(before) && n != before[id]) || (id >= len(before) && n > 0) { // (the call may have dialed a new connection)
+				conn = id + 1
+			}
+		}
+		settle()
+		if conn == 0 {
+			r.emit(Event{"ev": "Acquire", "u": op.U, "res": "err", "conn": 0, "errc": classOf(err)})
+			return
+		}
+		sc := r.scOf(conn)
+		if sc != nil {
+			sc.mu.Lock()
+			sc.lastRel = time.Now()
+			sc.mu.Unlock()
+		}
+		r.emit(Event{"ev": "Acquire", "u": op.U, "res": "ok", "conn": conn, "composite": true})
+		r.emit(Event{"ev": "Use", "u": op.U, "how": op.How, "conn": conn, "served": []int{conn}, "errc": classOf(err),
+			"clientClosed": classOf(err) == "closed", "composite": true}) // (what the release that follows does to the connection is the next line's business)
+		r.emit(Event{"ev": "Release", "u": op.U, "conn": conn, "panic": ""})
 	case "Use":
 		hd := r.live[op.U]
 		if hd == nil {
